@@ -199,4 +199,800 @@ def gatherheredocuments : M Unit := do
       makeheredoc id kill
       return .inl ()) fuel ()
 
+/-! ## delimiter stack -/
+
+def pushDelimiter (c : Char) : M Unit := modify fun l => { l with dstack := l.dstack ++ [c] }
+def popDelimiter : M Unit := do
+  let l ← get
+  if l.dstack.isEmpty then M.foreign "IndexError" "_pop_delimiter"
+  set { l with dstack := l.dstack.dropLast }
+def currentDelimiter : M (Option Char) := do return (← get).dstack.getLast?
+
+/-- outcome of the non-recursive first part of one loop iteration -/
+inductive Step (σ : Type) where
+  | cont (s : σ)             -- `continue`
+  | done (r : Str)           -- `break`
+  | next (s : σ) (c : Char)  -- fall through to the recursive part with the current `c`
+
+/-! ## _parse_matched_pair -/
+
+structure MPParams where
+  doublequotes : Option Char
+  opn : Char
+  close : Char
+  parsingcommand : Bool := false
+  allowesc : Bool := false
+  dquote : Bool := false
+  firstclose : Bool := false
+  dolbrace : Bool := false
+  arraysub : Bool := false
+
+structure CSParams where
+  doublequotes : Option Char
+  opn : Char
+  close : Char
+  parsingcommand : Bool := false
+  dquote : Bool := false
+  firstclose : Bool := false
+
+inductive DolBrace where
+  | empty | param | op | word | quote | quote2
+  deriving DecidableEq, Repr
+
+/-- `dolbracestate not in 'quote2'` (a substring test: '' , 'quote', 'quote2' are "in") -/
+def DolBrace.notInQuote2 : DolBrace → Bool
+  | .param | .op | .word => true
+  | .empty | .quote | .quote2 => false
+
+structure MPState where
+  count : Nat := 1
+  dolbracestate : DolBrace := .empty
+  insidecomment : Bool := false
+  sawdollar : Bool := false
+  passnextchar : Bool := false
+  ret : Str := []
+
+def isDolOp (c : Char) : Bool := "#%^,~:-=?+/".toList.contains c
+def isDolOpen (c : Char) : Bool := c == '(' || c == '{' || c == '['
+
+/-- the prologue of `_parse_matched_pair`: returns (lookforcomments, rdquote) -/
+def mpInit (P : MPParams) : M (Bool × Bool) := do
+  let mut lookforcomments := false
+  if P.parsingcommand then
+    -- `doublequotes not in "`'\""` with `doublequotes is None` is a TypeError
+    match P.doublequotes with
+    | none => M.foreign "TypeError" "_parse_matched_pair"
+    | some d =>
+      if !(d == '`' || d == '\'' || d == '"') && P.dquote then lookforcomments := true
+  let rdquote := if P.doublequotes == some '"' then true else P.dquote
+  return (lookforcomments, rdquote)
+
+/-- one iteration of `while count:` up to (excluding) `if open != close:` -/
+def mpPre (P : MPParams) (lookforcomments : Bool) (st : MPState) : M (Step MPState) := do
+  let c0 ← getc (P.doublequotes != some '\'' && !st.passnextchar)
+  let c ← match c0 with
+    | none => matchedPairError P.close
+    | some c => pure c
+  let mut st := st
+  if st.insidecomment then
+    st := { st with ret := st.ret ++ [c] }
+    if c == '\n' then st := { st with insidecomment := false }
+    return .cont st
+  else if lookforcomments && !st.insidecomment && c == '#' &&
+      (st.ret.isEmpty || st.ret.getLast? == some '\n' || (st.ret.getLast?.map shellblank).getD false) then
+    st := { st with insidecomment := true }
+  -- last char was backslash
+  if st.passnextchar then
+    return .cont { st with passnextchar := false, ret := st.ret ++ [c] }
+  else if c == P.close then
+    st := { st with count := st.count - 1 }
+  else if P.opn != P.close && st.sawdollar && P.opn == '{' && c == P.opn then
+    st := { st with count := st.count + 1 }
+  else if !P.firstclose && c == P.opn then
+    st := { st with count := st.count + 1 }
+  st := { st with ret := st.ret ++ [c] }
+  if st.count == 0 then return .done st.ret
+  if P.opn == '\'' then
+    if P.allowesc && c == '\\' then st := { st with passnextchar := true }
+    return .cont st
+  if c == '\\' then st := { st with passnextchar := true }
+  if P.dolbrace then
+    if st.dolbracestate == .param then
+      if st.ret.length > 1 then
+        if c == '%' || c == '#' || c == '^' || c == ',' then st := { st with dolbracestate := .quote }
+        else if c == '/' then st := { st with dolbracestate := .quote2 }
+      else if isDolOp c then st := { st with dolbracestate := .op }
+    if st.dolbracestate == .op && isDolOp c then st := { st with dolbracestate := .word }
+  if st.dolbracestate.notInQuote2 && P.dquote && P.dolbrace && c == '\'' then
+    return .cont st    -- NB: `sawdollar` keeps its old value
+  return .next st c
+
+/-- the closure `handledollarword` of `_parse_matched_pair` -/
+def handledollarword (pmp : MPParams → M Str) (pcs : CSParams → M Str) (P : MPParams)
+    (rdquote : Bool) (c : Char) : M Str := do
+  -- `count -= 1` makes `count` a local of the closure: UnboundLocalError
+  if P.opn == c then M.foreign "UnboundLocalError" "handledollarword"
+  if c == '(' then
+    pcs { doublequotes := none, opn := '(', close := ')', parsingcommand := true, dquote := false }
+  else if c == '{' then
+    pmp { doublequotes := none, opn := '{', close := '}', firstclose := true, dquote := rdquote,
+          dolbrace := true }
+  else if c == '[' then
+    pmp { doublequotes := none, opn := '[', close := ']', dquote := rdquote }
+  else M.foreign "AssertionError" "handledollarword"
+
+/-- the rest of the iteration, from `if open != close:`; `pmp`/`pcs` are the recursive calls -/
+def mpPost (pmp : MPParams → M Str) (pcs : CSParams → M Str) (P : MPParams) (rdquote : Bool)
+    (st : MPState) (c : Char) : M MPState := do
+  let mut st := st
+  if P.opn != P.close then
+    if ← shellquote c then
+      pushDelimiter c
+      -- `if sawdollar and "'"` is just `if sawdollar`
+      let nestret ← pmp { doublequotes := some c, opn := c, close := c,
+                          parsingcommand := P.parsingcommand,
+                          allowesc := if st.sawdollar then true else P.allowesc,
+                          dquote := P.dquote, firstclose := P.firstclose, dolbrace := P.dolbrace }
+      popDelimiter
+      if st.sawdollar && c == '\'' then pure ()
+      else if st.sawdollar && c == '"' then st := { st with ret := pyDropLastN st.ret 2 }
+      st := { st with ret := st.ret ++ nestret }
+    else if P.arraysub && st.sawdollar && isDolOpen c then
+      let r ← handledollarword pmp pcs P rdquote c
+      st := { st with ret := st.ret ++ r }
+  else if P.opn == '"' && c == '`' then
+    let r ← pmp { doublequotes := none, opn := '`', close := '`',
+                  parsingcommand := P.parsingcommand, allowesc := P.allowesc, dquote := P.dquote,
+                  firstclose := P.firstclose, dolbrace := P.dolbrace }
+    st := { st with ret := st.ret ++ r }
+  else if P.opn != '`' && st.sawdollar && isDolOpen c then
+    let r ← handledollarword pmp pcs P rdquote c
+    st := { st with ret := st.ret ++ r }
+  return { st with sawdollar := c == '$' }
+
+/-! ## _parse_comsub -/
+
+structure CSState where
+  count : Nat := 1
+  heredelim : Str := []
+  stripdoc : Bool := false
+  insideheredoc : Bool := false
+  insidecomment : Bool := false
+  insideword : Bool := false
+  insidecase : Bool := false
+  readingheredocdelim : Bool := false
+  wasdollar : Bool := false
+  passnextchar : Bool := false
+  reservedwordok : Bool := true
+  lexfirstind : Int := -1
+  lexrwlen : Nat := 0
+  /-- `none`: the local `lexwlen` is unbound -/
+  lexwlen : Option Nat := none
+  ret : Str := []
+
+/-- `while stripdoc and tind < len(ret) and ret[tind] == '\t': tind += 1`; `none` = IndexError -/
+def skipTabs (stripdoc : Bool) (ret : Str) : Nat → Int → Option Int
+  | 0, t => some t
+  | f + 1, t =>
+    if stripdoc && t < (ret.length : Int) then
+      match pyAtInt? ret t with
+      | none => none
+      | some ch => if ch == '\t' then skipTabs stripdoc ret f (t + 1) else some t
+    else some t
+
+/-- `tind = lexfirstind; while ...; ret[tind:] == heredelim` -/
+def csDelimMatches (st : CSState) : M Bool := do
+  match skipTabs st.stripdoc st.ret (st.ret.length + 2) st.lexfirstind with
+  | none => M.foreign "IndexError" "_parse_comsub"
+  | some tind => return pySliceFromInt st.ret tind == st.heredelim
+
+def csEndHeredoc (st : CSState) : CSState :=
+  { st with stripdoc := false, insideheredoc := false, heredelim := [], lexfirstind := -1 }
+
+/-- `c in '&|;'` -/
+def isAndOrSemi (c : Char) : Bool := c == '&' || c == '|' || c == ';'
+
+/-- from the `_getc` to the `passnextchar` test -/
+def csA (P : CSParams) (st : CSState) : M (Step CSState) := do
+  let c0 ← getc (P.doublequotes != some '\'' && !st.insidecomment && !st.passnextchar)
+  let c ← match c0 with
+    | none => matchedPairError P.close
+    | some c => pure c
+  let mut st := st
+  -- bashlex/parse.y L3571
+  if c == '\n' then
+    if st.readingheredocdelim && !st.heredelim.isEmpty then
+      st := { st with readingheredocdelim := false, insideheredoc := true,
+                      lexfirstind := (st.ret.length : Int) + 1 }
+    else if st.insideheredoc then
+      if ← csDelimMatches st then st := csEndHeredoc st
+      else st := { st with lexfirstind := (st.ret.length : Int) + 1 }
+  -- bashlex/parse.y L3599
+  if st.insideheredoc && c == P.close && st.count == 1 then
+    if ← csDelimMatches st then st := csEndHeredoc st
+  if st.insidecomment || st.insideheredoc then
+    st := { st with ret := st.ret ++ [c] }
+    if st.insidecomment && c == '\n' then st := { st with insidecomment := false }
+    return .cont st
+  if st.passnextchar then
+    return .cont { st with passnextchar := false, ret := st.ret ++ [c] }
+  return .next st c
+
+/-- from `if _shellbreak(c)` to the end of the `not reservedwordok and checkcase` block -/
+def csB (checkcase : Bool) (st : CSState) (c : Char) : M (Step CSState) := do
+  let mut st := st
+  if ← shellbreak c then
+    st := { st with insideword := false }
+  else
+    if st.insideword then
+      match st.lexwlen with
+      | none => M.foreign "UnboundLocalError" "_parse_comsub"
+      | some n => st := { st with lexwlen := some (n + 1) }
+    else
+      st := { st with insideword := true, lexwlen := some 0 }
+  if shellblank c && !st.readingheredocdelim && st.lexrwlen == 0 then
+    return .cont { st with ret := st.ret ++ [c] }
+  -- bashlex/parse.y L3686
+  if st.readingheredocdelim then
+    if st.lexfirstind == -1 && !(← shellbreak c) then
+      st := { st with lexfirstind := (st.ret.length : Int) }
+    else if st.lexfirstind ≥ 0 && !st.passnextchar && (← shellbreak c) then
+      if st.heredelim.isEmpty then
+        let nestret := pySliceFromInt st.ret st.lexfirstind
+        st := { st with heredelim := removequotes nestret }
+      if c == '\n' then
+        st := { st with insideheredoc := true, readingheredocdelim := false,
+                        lexfirstind := (st.ret.length : Int) + 1 }
+      else
+        st := { st with lexfirstind := -1 }
+  if !st.reservedwordok && checkcase && !st.insidecomment && ((← shellmeta c) || c == '\n') then
+    st := { st with ret := st.ret ++ [c] }
+    let peek ← getc true
+    if some c == peek && isAndOrSemi c then
+      return .cont { st with ret := st.ret ++ [c], reservedwordok := true, lexrwlen := 0 }
+    else if c == '\n' || isAndOrSemi c then
+      ungetc peek
+      return .cont { st with reservedwordok := true, lexrwlen := 0 }
+    -- `elif c is None` cannot hold
+    else
+      st := { st with ret := pyDropLastN st.ret 1 }
+      ungetc peek
+  return .next st c
+
+/-- the `if reservedwordok:` block and the `<` / `#` block; may replace `c` by the peeked char -/
+def csC (P : CSParams) (checkcase : Bool) (st : CSState) (c : Char) : M (Step CSState) := do
+  let checkcomment := checkcase
+  let mut st := st
+  -- bashlex/parse.y L3761
+  if st.reservedwordok then
+    if isLowerAscii c then
+      return .cont { st with ret := st.ret ++ [c], lexrwlen := st.lexrwlen + 1 }
+    else if st.lexrwlen == 4 && (← shellbreak c) then
+      if pyLastN st.ret 4 == "case".toList then st := { st with insidecase := true }
+      else if pyLastN st.ret 4 == "esac".toList then st := { st with insidecase := false }
+      st := { st with reservedwordok := false }
+    else if checkcomment && c == '#' &&
+        (st.lexrwlen == 0 || (st.insideword && st.lexwlen == some 0)) then
+      -- (`insideword` implies `lexwlen` is bound)
+      pure ()
+    else if !st.insidecase && (shellblank c || c == '\n') && st.lexrwlen == 2 &&
+        pyLastN st.ret 2 == "do".toList then
+      st := { st with lexrwlen := 0 }
+    else if st.insidecase && c != '\n' then
+      st := { st with reservedwordok := false }
+    else if !(← shellbreak c) then
+      st := { st with reservedwordok := false }
+  if !st.insidecomment && checkcase && c == '<' then
+    st := { st with ret := st.ret ++ [c] }
+    let peek0 ← getc true
+    let peek ← match peek0 with
+      | none => matchedPairError P.close
+      | some p => pure p
+    if peek == c then
+      st := { st with ret := st.ret ++ [peek] }
+      let peek20 ← getc true
+      let peek2 ← match peek20 with
+        | none => matchedPairError P.close
+        | some p => pure p
+      if peek2 == '-' then
+        st := { st with ret := st.ret ++ [peek2], stripdoc := true }
+      else
+        ungetc (some peek2)
+      if peek2 != '<' then
+        st := { st with readingheredocdelim := true, lexfirstind := -1 }
+      return .cont st
+    else
+      return .next st peek      -- `c = peekc`
+  else if checkcomment && !st.insidecomment && c == '#' then
+    -- `(reservedwordok and lexrwlen == 0) or insideword or lexwlen == 0`
+    let b ← (do
+      if st.reservedwordok && st.lexrwlen == 0 then pure true
+      else if st.insideword then pure true
+      else match st.lexwlen with
+        | none => M.foreign "UnboundLocalError" "_parse_comsub"
+        | some n => pure (n == 0) : M Bool)
+    if b then st := { st with insidecomment := true }
+  return .next st c
+
+/-- counting, `ret += c`, `break`, backslash -/
+def csD (P : CSParams) (st : CSState) (c : Char) : M (Step CSState) := do
+  let mut st := st
+  if c == P.close && !st.insidecase then
+    st := { st with count := st.count - 1 }
+  else if !P.firstclose && !st.insidecase && c == P.opn then
+    st := { st with count := st.count + 1 }
+  st := { st with ret := st.ret ++ [c] }
+  if st.count == 0 then return .done st.ret
+  if c == '\\' then st := { st with passnextchar := true }
+  return .next st c
+
+def csPre (P : CSParams) (checkcase : Bool) (st : CSState) : M (Step CSState) := do
+  match ← csA P st with
+  | .cont s => return .cont s
+  | .done r => return .done r
+  | .next st c =>
+    match ← csB checkcase st c with
+    | .cont s => return .cont s
+    | .done r => return .done r
+    | .next st c =>
+      match ← csC P checkcase st c with
+      | .cont s => return .cont s
+      | .done r => return .done r
+      | .next st c => csD P st c
+
+/-- the tail of the iteration (bashlex/parse.y L3897): nested quotes and `$(`, `${`, `$[` -/
+def csPost (pmp : MPParams → M Str) (pcs : CSParams → M Str) (P : CSParams)
+    (st : CSState) (c : Char) : M CSState := do
+  let mut st := st
+  if ← shellquote c then
+    pushDelimiter c
+    let nestret ← pmp { doublequotes := some c, opn := c, close := c,
+                        allowesc := st.wasdollar && c == '\'', dquote := true }
+    popDelimiter
+    st := { st with ret := st.ret ++ nestret }
+  else if st.wasdollar && isDolOpen c then
+    if !st.insidecase && P.opn == c then st := { st with count := st.count - 1 }
+    let nestret ←
+      if c == '(' then
+        pcs { doublequotes := none, opn := '(', close := ')', parsingcommand := true, dquote := false }
+      else if c == '{' then
+        pmp { doublequotes := none, opn := '{', close := '}', firstclose := true, dolbrace := true,
+              dquote := true }
+      else
+        pmp { doublequotes := none, opn := '[', close := ']', dquote := true }
+    st := { st with ret := st.ret ++ nestret }
+  return { st with wasdollar := c == '$' }
+
+/-! ## the two mutually recursive functions (structural on the depth fuel) -/
+
+mutual
+
+def parseMatchedPair : Nat → MPParams → M Str
+  | 0, _ => M.raise (.outOfFuel "_parse_matched_pair")
+  | fuel + 1, P => do
+    let (lookforcomments, rdquote) ← mpInit P
+    let lf ← loopFuel
+    let init : MPState := { dolbracestate := if P.dolbrace then .param else .empty }
+    M.loop "_parse_matched_pair" (fun (st : MPState) => do
+      if st.count == 0 then return .inr st.ret
+      match ← mpPre P lookforcomments st with
+      | .cont s => return .inl s
+      | .done r => return .inr r
+      | .next s c =>
+        let s' ← mpPost (parseMatchedPair fuel) (parseComsub fuel) P rdquote s c
+        return .inl s') lf init
+termination_by structural fuel => fuel
+
+def parseComsub : Nat → CSParams → M Str
+  | 0, _ => M.raise (.outOfFuel "_parse_comsub")
+  | fuel + 1, P => do
+    let peek ← getc false
+    ungetc peek
+    if peek == some '(' then
+      parseMatchedPair fuel { doublequotes := P.doublequotes, opn := P.opn, close := P.close }
+    else
+      let checkcase : Bool := P.parsingcommand &&
+        (match P.doublequotes with
+         | none => true
+         | some d => !(d == '\'' || d == '"')) && !P.dquote
+      let lf ← loopFuel
+      M.loop "_parse_comsub" (fun (st : CSState) => do
+        if st.count == 0 then return .inr st.ret
+        match ← csPre P checkcase st with
+        | .cont s => return .inl s
+        | .done r => return .inr r
+        | .next s c =>
+          let s' ← csPost (parseMatchedPair fuel) (parseComsub fuel) P s c
+          return .inl s') lf {}
+termination_by structural fuel => fuel
+
+end
+
+/-! ## tokens -/
+
+/-- the value of an enum member (`tokentype.X.value`) -/
+def TokType.enumValue (t : TokType) : TVal :=
+  match t.strValue with
+  | some s => .str s.toList
+  | none =>
+    .int (match t with
+      | .IF => 1 | .THEN => 2 | .ELSE => 3 | .ELIF => 4 | .FI => 5 | .CASE => 6 | .ESAC => 7
+      | .FOR => 8 | .SELECT => 9 | .WHILE => 10 | .UNTIL => 11 | .DO => 12 | .DONE => 13
+      | .FUNCTION => 14 | .COPROC => 15 | .COND_START => 16 | .COND_END => 17 | .IN => 19
+      | .TIME => 21 | .TIMEOPT => 22 | .TIMEIGN => 23 | .WORD => 24 | .ASSIGNMENT_WORD => 25
+      | .REDIR_WORD => 26 | .NUMBER => 27 | .ARITH_CMD => 28 | .ARITH_FOR_EXPRS => 29
+      | .COND_CMD => 30 | .LEFT_CURLY => 47 | .RIGHT_CURLY => 48 | _ => 0)
+
+/-- `_createtoken(type_, value, flags)` -/
+def createtoken (ty : TokType) (v : TVal) (flags : WordFlags := []) : M Token := do
+  let l ← get
+  if l.positions.length < 2 then M.foreign "AssertionError" "_createtoken"
+  let p2 := l.positions.getLast?.getD 0
+  let rest := l.positions.dropLast
+  let p1 := rest.getLast?.getD 0
+  set { l with positions := rest.dropLast }
+  -- `token.__init__`: `assert self.lexpos < self.endlexpos`
+  if !(p1 < p2) then M.foreign "AssertionError" "token.__init__"
+  return { ttype := some ty, value := v, pos := some (p1, p2), flags := flags }
+
+/-- `_reserved_word_acceptable(tok)` -/
+def reservedWordAcceptable (l : Local) (tok : Token) : Bool :=
+  !tok.truthy
+  || (match tok.ttype with | some t => reservedTypes.contains t | none => false)
+  || (match tok.value with | .str [ch] => reservedChars.contains ch | _ => false)
+  || (l.lastReadToken.is .WORD && l.tokenBeforeThat.is .FUNCTION)
+
+/-- `_command_token_position(token)` (truthiness) -/
+def commandTokenPosition (l : Local) (tok : Token) : Bool :=
+  tok.is .ASSIGNMENT_WORD || l.ps.redirlist ||
+  (!(tok.is .SEMI_SEMI || tok.is .SEMI_AND || tok.is .SEMI_SEMI_AND) && reservedWordAcceptable l tok)
+
+/-- `_assignment_acceptable(token)` -/
+def assignmentAcceptable (l : Local) (tok : Token) : Bool :=
+  commandTokenPosition l tok && !l.ps.casepat
+
+/-- `_time_command_acceptable()` returns None -/
+def timeCommandAcceptable : Bool := false
+/-- `shutils.legal_identifier(name)` returns None -/
+def legalIdentifier (_ : Str) : Bool := false
+/-- `shutils.legal_number` on a string (exact when the string is made of ASCII digits) -/
+def legalNumber (s : Str) : Bool := !s.isEmpty && s.all isDigit
+def digitsToNat (s : Str) : Nat := s.foldl (fun n c => 10 * n + (c.toNat - 48)) 0
+
+/-- the `for i, c in enumerate(value)` loop of `_is_assignment` (truthiness of the result) -/
+def isAssignmentLoop : Str → Bool
+  | [] => false
+  | c :: rest =>
+    if c == '=' then true
+    else if c == '+' && rest.head? == some '=' then true
+    else if !(isAlnum c || c == '_') then false
+    else isAssignmentLoop rest
+
+/-- `_is_assignment(value, iscompassign)` (truthiness; index 0 cannot be returned) -/
+def isAssignment (value : Str) : M Bool := do
+  match value with
+  | [] => M.foreign "IndexError" "_is_assignment"
+  | c :: _ =>
+    if !isAlpha c && c != '_' then return false
+    return isAssignmentLoop value
+
+/-- `_specialcasetokens(tokstr)` -/
+def specialcasetokens (tokstr : Str) : M (Option TokType) := do
+  let l ← get
+  let last := l.lastReadToken
+  let before := l.tokenBeforeThat
+  if last.is .WORD && (before.is .FOR || before.is .CASE || before.is .SELECT) &&
+      tokstr == "in".toList then
+    if before.is .CASE then
+      set { l with ps := { l.ps with casepat := true }, esacsNeeded := l.esacsNeeded + 1 }
+    return some .IN
+  if last.is .WORD && (before.is .FOR || before.is .SELECT) && tokstr == "do".toList then
+    return some .DO
+  if l.esacsNeeded != 0 then
+    modify fun l => { l with esacsNeeded := l.esacsNeeded - 1 }
+    if tokstr == "esac".toList then
+      modify fun l => { l with ps := { l.ps with casepat := false } }
+      return some .ESAC
+  if (← get).ps.allowopnbrc then
+    modify fun l => { l with ps := { l.ps with allowopnbrc := false } }
+    if tokstr == ['{'] then
+      modify fun l => { l with openBraceCount := l.openBraceCount + 1 }
+      return some .LEFT_CURLY
+  if last.is .ARITH_FOR_EXPRS && tokstr == "do".toList then
+    return some .DO
+  if last.is .ARITH_FOR_EXPRS && tokstr == ['{'] then
+    modify fun l => { l with openBraceCount := l.openBraceCount + 1 }
+    return some .LEFT_CURLY
+  let l ← get
+  if l.openBraceCount != 0 && reservedWordAcceptable l l.lastReadToken && tokstr == ['}'] then
+    set { l with openBraceCount := l.openBraceCount - 1 }
+    return some .RIGHT_CURLY
+  if last.is .TIME && tokstr == "-p".toList then return some .TIMEOPT
+  if last.is .TIMEOPT && tokstr == "--".toList then return some .TIMEIGN
+  if l.ps.condexpr && tokstr == "]]".toList then return some .COND_END
+  return none
+
+/-! ## _readtokenword -/
+
+/-- the dict `d`, `tokenword` and the loop variable `c` -/
+structure RWState where
+  c : Option Char
+  allDigit : Bool
+  dollarPresent : Bool := false
+  quoted : Bool := false
+  passNext : Bool := false
+  compoundAssignment : Bool := false
+  tokenword : Str := []
+
+/-- closure `handleescapedchar` -/
+def handleescapedchar (st : RWState) (c : Char) : RWState :=
+  { st with tokenword := st.tokenword ++ [c],
+            allDigit := st.allDigit && isDigit c,
+            dollarPresent := if !st.dollarPresent then c == '$' else st.dollarPresent }
+
+/-- closure `handleshellquote` -/
+def handleshellquote (st : RWState) (c : Char) : M RWState := do
+  pushDelimiter c
+  let ttok ← parseMatchedPair (← depthFuel)
+    { doublequotes := some c, opn := c, close := c, parsingcommand := c == '`' }
+  popDelimiter
+  return { st with tokenword := st.tokenword ++ [c] ++ ttok, allDigit := false, quoted := true,
+                   dollarPresent := if !st.dollarPresent then c == '"' && ttok.contains '$'
+                                    else st.dollarPresent }
+
+/-- closure `handleshellexp`; the Bool is its return value (`True`, or `None` = false) -/
+def handleshellexp (st : RWState) (c : Char) (cd : Option Char) : M (RWState × Bool) := do
+  let peek ← getc
+  if peek == some '(' || (c == '$' && (peek == some '{' || peek == some '[')) then
+    let ttok ←
+      if peek == some '{' then
+        parseMatchedPair (← depthFuel)
+          { doublequotes := cd, opn := '{', close := '}', firstclose := true, dolbrace := true }
+      else if peek == some '(' then do
+        pushDelimiter '('
+        let t ← parseComsub (← depthFuel)
+          { doublequotes := cd, opn := '(', close := ')', parsingcommand := true }
+        popDelimiter
+        pure t
+      else
+        parseMatchedPair (← depthFuel) { doublequotes := cd, opn := '[', close := ']' }
+    return ({ st with tokenword := st.tokenword ++ [c] ++ peek.toList ++ ttok,
+                      dollarPresent := true, allDigit := false }, false)
+  else if c == '$' && (peek == some '\'' || peek == some '"') then
+    let p := peek.getD '"'
+    pushDelimiter p
+    let ttok ← parseMatchedPair (← depthFuel)
+      { doublequotes := some p, opn := p, close := p, allowesc := p == '\'' }
+    popDelimiter
+    return ({ st with tokenword := st.tokenword ++ [c, p] ++ ttok, quoted := true,
+                      allDigit := false }, false)
+  else if c == '$' && peek == some '$' then
+    return ({ st with tokenword := st.tokenword ++ ['$', '$'], dollarPresent := true,
+                      allDigit := false }, false)
+  else
+    ungetc peek
+    return (st, true)
+
+/-- one iteration of `while True:` in `_readtokenword`; `.inr` = `break` -/
+def readtokenwordStep (st : RWState) : M (RWState ⊕ RWState) := do
+  match st.c with
+  | none => return .inr st
+  | some c0 =>
+    let mut st := st
+    let mut c := c0
+    if st.passNext then
+      st := handleescapedchar { st with passNext := false } c
+    else
+      let cd ← currentDelimiter
+      let mut gotonext := false
+      if c == '\\' then
+        let peek ← getc false
+        if peek == some '\n' then
+          c := '\n'
+          gotonext := true
+        else
+          ungetc peek
+          let cond ← (do
+            if cd.isNone || cd == some '`' then pure true
+            else if cd == some '"' then
+              match peek with
+              | none => pure false
+              | some p => pure (← syn p).dquote
+            else pure false : M Bool)
+          if cond then
+            st := handleescapedchar { st with passNext := true, quoted := true } c
+            gotonext := true
+      else if ← shellquote c then
+        st ← handleshellquote st c
+        gotonext := true
+      else if ← shellexp c then
+        let (st', r) ← handleshellexp st c cd
+        st := st'
+        gotonext := !r
+      if !gotonext then
+        if ← shellbreak c then
+          ungetc (some c)
+          return .inr { st with c := some c }
+        else
+          st := handleescapedchar st c
+    let cd ← currentDelimiter
+    let nc ← getc (cd != some '\'' && !st.passNext)
+    return .inl { st with c := nc }
+
+/-- the part of `_readtokenword` after `# got_token` -/
+def finishWord (st : RWState) : M Token := do
+  recordpos
+  let tokenword := st.tokenword
+  let cIsRedir := st.c == some '<' || st.c == some '>'
+  let l ← get
+  if st.allDigit && (cIsRedir || l.lastReadToken.is .LESS_AND || l.lastReadToken.is .GREATER_AND)
+      && legalNumber tokenword then
+    return ← createtoken .NUMBER (.int (digitsToNat tokenword))
+  -- bashlex/parse.y L4811
+  match ← specialcasetokens tokenword with
+  | some ty => return ← createtoken ty (.str tokenword)
+  | none => pure ()
+  let l ← get
+  if !st.dollarPresent && !st.quoted && reservedWordAcceptable l l.lastReadToken then
+    match reservedFirstCommand.lookup (String.ofList tokenword) with
+    | some ttype =>
+      let ps := l.ps
+      if ps.casepat && ttype != .ESAC then pure ()
+      else if ttype == .TIME && !timeCommandAcceptable then pure ()
+      else if ttype == .ESAC then set { l with ps := { ps with casepat := false, casestmt := false } }
+      else if ttype == .CASE then set { l with ps := { ps with casestmt := true } }
+      else if ttype == .COND_END then set { l with ps := { ps with condcmd := false, condexpr := false } }
+      else if ttype == .COND_START then set { l with ps := { ps with condcmd := true } }
+      else if ttype == .LEFT_CURLY then set { l with openBraceCount := l.openBraceCount + 1 }
+      else if ttype == .RIGHT_CURLY && l.openBraceCount != 0 then
+        set { l with openBraceCount := l.openBraceCount - 1 }
+      return ← createtoken ttype (.str tokenword)
+    | none => pure ()
+  let mut tok ← createtoken .WORD (.str tokenword) []
+  if st.dollarPresent then tok := { tok with flags := addFlag tok.flags .HASDOLLAR }
+  if st.quoted then tok := { tok with flags := addFlag tok.flags .QUOTED }
+  -- `d['compound_assignment']` is never set; `tokenword[-1]` on a token object is not reached
+  if st.compoundAssignment then M.foreign "TypeError" "_readtokenword"
+  let l ← get
+  if ← isAssignment tokenword then
+    tok := { tok with flags := addFlag tok.flags .ASSIGNMENT }
+    if assignmentAcceptable l l.lastReadToken then
+      tok := { tok with flags := addFlag tok.flags .NOSPLIT }
+      if l.ps.compassign then tok := { tok with flags := addFlag tok.flags .NOGLOB }
+  -- bashlex/parse.y L4865: `if self._command_token_position(...): pass`
+  let _ := commandTokenPosition l l.lastReadToken
+  -- (`value[0]`/`value[-1]` cannot raise: `_is_assignment` already indexed `value[0]`)
+  if tokenword.head? == some '{' && tokenword.getLast? == some '}' && cIsRedir then
+    if legalIdentifier (tokenword.drop 1) then
+      tok := { tok with value := .str (tokenword.drop 1), ttype := some .REDIR_WORD }
+    return tok
+  if tok.flags.contains .ASSIGNMENT && tok.flags.contains .NOSPLIT then
+    tok := { tok with ttype := some .ASSIGNMENT_WORD }
+  if l.lastReadToken.is .FUNCTION then
+    modify fun l => { l with ps := { l.ps with allowopnbrc := true } }
+  return tok
+
+/-- `_readtokenword(c)` -/
+def readtokenword (c : Char) : M Token := do
+  let fuel ← loopFuel
+  let st ← M.loop "_readtokenword" readtokenwordStep fuel { c := some c, allDigit := isDigit c }
+  finishWord st
+
+/-! ## _readtoken, token -/
+
+/-- `_discard_until(character)` -/
+def discardUntil (character : Char) : M Unit := do
+  let fuel ← loopFuel
+  let c ← getc false
+  let c ← M.loop "_discard_until" (fun (c : Option Char) => do
+    match c with
+    | none => return .inr c
+    | some ch =>
+      if ch != character then return .inl (← getc false) else return .inr c) fuel c
+  if c.isSome then ungetc c
+
+/-- `tokentype(character)` -/
+def tokentypeOfChar (c : Char) : M TokType :=
+  match TokType.ofChar c with
+  | some t => pure t
+  | none => M.foreign "ValueError" "_readtoken"
+
+/-- the `_shellmeta(character) and not DBLPAREN` block of `_readtoken`;
+    `none` = fall through to the code after the block -/
+def readtokenMeta (character : Char) : M (Option TokType) := do
+  modify fun l => { l with ps := { l.ps with assignok := false } }
+  let peek ← getc true
+  -- `both = character (+ peek_char)`; `character == peek_char`
+  if peek == some character then
+    if character == '<' then
+      let p ← getc
+      if p == some '-' then return some .LESS_LESS_MINUS
+      else if p == some '<' then return some .LESS_LESS_LESS
+      else
+        ungetc p
+        return some .LESS_LESS
+    else if character == '>' then return some .GREATER_GREATER
+    else if character == ';' then
+      modify fun l => { l with ps := { l.ps with casepat := true } }
+      let p ← getc
+      if p == some '&' then return some .SEMI_SEMI_AND
+      else
+        ungetc p
+        return some .SEMI_SEMI
+    else if character == '&' then return some .AND_AND
+    else if character == '|' then return some .OR_OR
+  else if character == '<' && peek == some '&' then return some .LESS_AND
+  else if character == '>' && peek == some '&' then return some .GREATER_AND
+  else if character == '<' && peek == some '>' then return some .LESS_GREATER
+  else if character == '>' && peek == some '|' then return some .GREATER_BAR
+  else if character == '&' && peek == some '>' then
+    let p ← getc
+    if p == some '>' then return some .AND_GREATER_GREATER
+    else
+      ungetc p
+      return some .AND_GREATER
+  else if character == '|' && peek == some '&' then return some .BAR_AND
+  else if character == ';' && peek == some '&' then return some .SEMI_AND
+  ungetc peek
+  let l ← get
+  if character == ')' && l.lastReadToken.value == .str ['('] && l.tokenBeforeThat.is .WORD then
+    modify fun l => { l with ps := { l.ps with allowopnbrc := true } }
+  let l ← get
+  if character == '(' && !l.ps.casepat then
+    set { l with ps := { l.ps with subshell := true } }
+  else if l.ps.casepat && character == ')' then
+    set { l with ps := { l.ps with casepat := false } }
+  else if l.ps.subshell && character == ')' then
+    set { l with ps := { l.ps with subshell := false } }
+  if !(character == '<' || character == '>') || peek != some '(' then
+    return some (← tokentypeOfChar character)
+  return none
+
+/-- `_readtoken()`: a bare token type (`.inl`) or a token (`.inr`) -/
+def readtoken : M (TokType ⊕ Token) := do
+  let fuel ← loopFuel
+  let c0 ← getc true
+  let c1 ← M.loop "_readtoken" (fun (c : Option Char) => do
+    match c with
+    | some ch => if shellblank ch then return .inl (← getc true) else return .inr c
+    | none => return .inr c) fuel c0
+  let mut character ← match c1 with
+    | none => return .inr { ttype := some .EOF, value := .none }
+    | some ch => pure ch
+  if character == '#' then
+    discardUntil '\n'
+    let _ ← getc false
+    character := '\n'
+  recordpos 1
+  if character == '\n' then
+    -- bashlex/parse.y L3034 ALIAS
+    gatherheredocuments
+    modify fun l => { l with ps := { l.ps with assignok := false } }
+    return .inl (← tokentypeOfChar character)
+  if (← get).ps.regexp then
+    return .inr (← readtokenword character)
+  if (← shellmeta character) && !(← get).ps.dblparen then
+    match ← readtokenMeta character with
+    | some t => return .inl t
+    | none => pure ()
+  let l ← get
+  if character == '-' && (l.lastReadToken.is .LESS_AND || l.lastReadToken.is .GREATER_AND) then
+    return .inl (← tokentypeOfChar character)
+  return .inr (← readtokenword character)
+
+/-- `tokenizer.token()` -/
+def nextToken : M Token := do
+  modify fun l => { l with twoTokensAgo := l.tokenBeforeThat, tokenBeforeThat := l.lastReadToken,
+                           lastReadToken := l.currentToken }
+  let cur ← match ← readtoken with
+    | .inl ty => do
+      recordpos
+      createtoken ty ty.enumValue
+    | .inr t => pure t
+  modify fun l => { l with currentToken := cur }
+  -- `ps & EOFTOKEN and cur.ttype == self._shell_eof_token` compares a tokentype with a token
+  -- (or None): always False, the EOF substitution is dead
+  modify fun l => { l with ps := { l.ps with eoftoken := false } }
+  return cur
+
 end Bashlex
